@@ -210,8 +210,8 @@ def register(reg):
     g = "fog"
     F = MOD + ":HexaryTrieFog."
     reg.add(g, Contract(F + "is_complete", ["self"], complete_cases, setup=lambda E: {"self": mk_fog(E)},
-                        props=("C11",), callee=False))
-    reg.add(g, Contract(F + "nearest_right", ["self", "key_input"], nr_cases, setup=nr_setup, props=("C11",),
+                        props=("C11", "C09"), callee=False))
+    reg.add(g, Contract(F + "nearest_right", ["self", "key_input"], nr_cases, setup=nr_setup, props=("C11", "C09"),
                         callee=False))
     register2(reg)
     register3(reg)
@@ -287,7 +287,7 @@ def register2(reg):
     reg.add(g, Contract(F + "_prefix_distance", ["low_key", "high_key"], pd_cases, setup=pd_setup, props=("C11",),
                         loops={0: LoopSpec(pd_inv, fresh={"low_nibble": "unbound", "high_nibble": "unbound",
                                                           "final_low_nibble": "unbound", "final_high_nibble": "unbound"})}))
-    reg.add(g, Contract(F + "nearest_unknown", ["self", "key_input"], nu_cases, setup=nr_setup, props=("C11",),
+    reg.add(g, Contract(F + "nearest_unknown", ["self", "key_input"], nu_cases, setup=nr_setup, props=("C11", "C09"),
                         callee=False))
 
 
@@ -386,7 +386,7 @@ def register3(reg):
     lib.BUILTINS["map"] = I.Builtin("map", x_map)
     g = "fog"
     F = MOD + ":HexaryTrieFog."
-    reg.add(g, Contract(F + "mark_all_complete", ["self", "prefix_inputs"], mac_cases, setup=mac_setup, props=("C11",),
+    reg.add(g, Contract(F + "mark_all_complete", ["self", "prefix_inputs"], mac_cases, setup=mac_setup, props=("C11", "C09"),
                         callee=False,
                         loops={0: LoopSpec(mac_inv, havoc=lambda fr: [fr.locals["new_unexplored_prefixes"].fields["members"],
                                                                       fr.locals["new_unexplored_prefixes"]],
